@@ -85,6 +85,8 @@ def enc(v):
         return {"__dt__": str(v)}
     if isinstance(v, type) and issubclass(v, onp.generic):
         return {"__dt__": onp.dtype(v).name}
+    if v in (float, complex, int, bool):
+        return {"__ty__": v.__name__}
     raise TypeError("enc: %r" % (type(v),))
 
 
@@ -125,6 +127,8 @@ def dec(v):
             return Ellipsis
         if "__dt__" in v:
             return onp.dtype(v["__dt__"])
+        if "__ty__" in v:
+            return {"float": float, "complex": complex, "int": int, "bool": bool}[v["__ty__"]]
         return {k: dec(t) for k, t in v.items()}
     return v
 
